@@ -279,22 +279,45 @@ def check_metadata(ctx, r):
                 cands = [f for f in w["wraps"] + w["impl"] if f.name == st.value.id]
                 if cands and not all(c in w["wraps"] for c in cands):
                     ctx.bad("C07.4", jt, st, f"jaxtyped returns `{st.value.id}`, one definition of which lacks functools.wraps(fn)")
-    # descriptor branches
+    # descriptor branches: `if isinstance(fn, K): return K(jaxtyped(fn.__func__, ...))`, also when the
+    # kinds are driven from a table (`for kind in (classmethod, staticmethod): if isinstance(fn, kind): ...`)
     found = {}
+    ctor_name = {}
+    opaque_dispatch = []
+    loops = {}  # loop variable -> tuple of kind names
+    for st in ast.walk(jt.node):
+        if isinstance(st, ast.For) and isinstance(st.target, ast.Name) and isinstance(st.iter, (ast.Tuple, ast.List)) and all(isinstance(e, ast.Name) for e in st.iter.elts):
+            loops[st.target.id] = [e.id for e in st.iter.elts]
     for st in ast.walk(jt.node):
         if isinstance(st, ast.If) and isinstance(st.test, ast.Call) and isinstance(st.test.func, ast.Name) and st.test.func.id == "isinstance" \
-                and len(st.test.args) == 2 and isinstance(st.test.args[0], ast.Name) and st.test.args[0].id == "fn" and isinstance(st.test.args[1], ast.Name):
-            found[st.test.args[1].id] = st
+                and len(st.test.args) == 2 and isinstance(st.test.args[0], ast.Name) and st.test.args[0].id == "fn":
+            second = st.test.args[1]
+            if isinstance(second, ast.Name) and second.id in loops:
+                for k_ in loops[second.id]:
+                    found[k_] = st
+                    ctor_name[k_] = second.id
+            elif isinstance(second, ast.Name):
+                found[second.id] = st
+                ctor_name[second.id] = second.id
+            else:
+                opaque_dispatch.append(st)
+    for n_ in ast.walk(jt.node):
+        if isinstance(n_, ast.Call) and isinstance(n_.func, ast.Name) and n_.func.id == "type" and n_.args and norm(n_.args[0]) == "fn":
+            opaque_dispatch.append(n_)
+        if isinstance(n_, ast.Match):
+            opaque_dispatch.append(n_)
     for kind in ("classmethod", "staticmethod"):
         st = found.get(kind)
         if st is None:
+            if opaque_dispatch:
+                raise AnalysisError(f"C07.4: no `isinstance(fn, {kind})` branch recognised, but jaxtyped dispatches on the kind of fn through `{short(opaque_dispatch[0], 60)}`")
             ctx.bad("C07.4", jt, jt.node, f"jaxtyped has no branch for `{kind}` objects: the descriptor kind is lost", construct=f"no isinstance(fn, {kind}) branch")
             continue
         rets = [x for x in st.body if isinstance(x, ast.Return)]
         ok = False
         for rt in rets:
             v = rt.value
-            if isinstance(v, ast.Call) and isinstance(v.func, ast.Name) and v.func.id == kind and len(v.args) == 1:
+            if isinstance(v, ast.Call) and isinstance(v.func, ast.Name) and v.func.id == ctor_name[kind] and len(v.args) == 1:
                 inner = v.args[0]
                 if isinstance(inner, ast.Call) and isinstance(inner.func, ast.Name) and inner.func.id == "jaxtyped" and inner.args \
                         and norm(inner.args[0]) == "fn.__func__" and any(k.arg == "typechecker" and norm(k.value) == "typechecker" for k in inner.keywords):
@@ -304,6 +327,8 @@ def check_metadata(ctx, r):
         else:
             ctx.bad("C07.4", jt, st, f"a `{kind}` is not rebuilt as {kind}(jaxtyped(fn.__func__, typechecker=typechecker)): descriptor kind or checker is lost")
     st = found.get("property")
+    if st is None and opaque_dispatch:
+        raise AnalysisError(f"C07.4: no `isinstance(fn, property)` branch recognised, but jaxtyped dispatches on the kind of fn through `{short(opaque_dispatch[0], 60)}`")
     if st is None:
         ctx.bad("C07.4", jt, jt.node, "jaxtyped has no branch for `property` objects", construct="no isinstance(fn, property) branch")
     else:
@@ -327,7 +352,14 @@ def check_metadata(ctx, r):
                 srcs = [val]
                 if isinstance(val, ast.Name):
                     srcs = [d[1] for d in c05._assignments_to(jt, val.id)]
+                flat = []
                 for s in srcs:
+                    # `None if fn.fget is None else jaxtyped(fn.fget, ...)`: both arms are sources
+                    if isinstance(s, ast.IfExp) and f"fn.{acc}" in norm(s.test):
+                        flat += [s.body, s.orelse]
+                    else:
+                        flat.append(s)
+                for s in flat:
                     if isinstance(s, ast.Constant) and s.value is None:
                         continue
                     good = (isinstance(s, ast.Call) and isinstance(s.func, ast.Name) and s.func.id == "jaxtyped" and s.args
